@@ -37,6 +37,9 @@ func TestC16Histories(t *testing.T) {
 		c := genfont.Gen(genfont.Opts{Kind: kind, MaxGlyphs: rapid.SampledFrom([]int{5, 8, 24}).Draw(t, "maxGlyphs"), MinGlyphs: 2, Layout: layout,
 			StemHeavy: rapid.Bool().Draw(t, "stemHeavy"), Names: names, NilMaxp: true}).Draw(t, "font")
 		f := c.Font
+		if rapid.Bool().Draw(t, "mixPairRecords") && genfont.MixPairRecords(t, f) {
+			c.Labels = append(c.Labels, "pair-records-mixed")
+		}
 		pristine := fontcmp.DeepCopy(f)
 		k := rapid.IntRange(2, 8).Draw(t, "nOps")
 		var hist strings.Builder
